@@ -47,6 +47,9 @@ deriving Repr
 mutual
 inductive Stmt where
   | set (l : Lhs) (r : Rhs)
+  /-- run-time indexed store `var[idx*w +: w] := r` (`w = 1`: a bit select `var[idx] := r`);
+  `vw` = declared width of `var` (an index outside the variable writes nothing) -/
+  | setDyn (var vw w : Nat) (idx : Rhs) (r : Rhs)
   | ite (c : Rhs) (t e : Stmts)
   /-- `case sel { lw'lv: body … default: dflt }`: first arm with `sel == label` wins -/
   | case (sel : Rhs) (arms : Arms) (dflt : Stmts)
@@ -80,6 +83,8 @@ structure Dom where
   cond : (Nat → Val) → Rhs → Option Bool
   /-- `sel == lw'lv` -/
   arm : (Nat → Val) → Rhs → Nat → Nat → Option Bool
+  /-- value of a run-time index; `none` = undetermined (the target variable is poisoned) -/
+  idx : (Nat → Val) → Rhs → Option Nat
   /-- old value, target, new value (already `< 2^width`) ↦ merged value -/
   write : Val → Lhs → Val → Val
   /-- `$display` argument: self-determined width and value -/
@@ -107,6 +112,7 @@ def poisonList (D : Dom) : List Nat → Store D → Store D
 mutual
 def targetsS : Stmt → List Nat
   | .set l _ => [l.var]
+  | .setDyn v _ _ _ _ => [v]
   | .ite _ t e => targetsSs t ++ targetsSs e
   | .case _ arms d => targetsArms arms ++ targetsSs d
   | .disp _ _ => []
@@ -121,6 +127,7 @@ end
 mutual
 def hasDispS : Stmt → Bool
   | .set _ _ => false
+  | .setDyn _ _ _ _ _ => false
   | .ite _ t e => hasDispSs t || hasDispSs e
   | .case _ arms d => hasDispArms arms || hasDispSs d
   | .disp _ _ => true
@@ -132,11 +139,18 @@ def hasDispArms : Arms → Bool
   | .cons _ _ b rest => hasDispSs b || hasDispArms rest
 end
 
+/-- the target of a run-time indexed store once the index is known -/
+def dynLhs (v w i : Nat) : Lhs := { var := v, lo := i * w, width := w, full := false }
+
 /-! ### blocking execution (`assign`, `always_comb`) -/
 
 mutual
 def execS (D : Dom) : Stmt → Store D → Store D
   | .set l r, σ => upd σ l.var (D.write (σ.get l.var) l (D.rhs σ.get r l.width))
+  | .setDyn v vw w idx r, σ =>
+    match D.idx σ.get idx with
+    | some i => if i * w + w ≤ vw then upd σ v (D.write (σ.get v) (dynLhs v w i) (D.rhs σ.get r w)) else σ
+    | none => upd σ v D.poison
   | .ite c t e, σ =>
     match D.cond σ.get c with
     | some true => execSs D t σ
@@ -175,6 +189,10 @@ def poisonEvs (D : Dom) (xs : List Nat) (disp : Bool) : List (Ev D.Val) :=
 mutual
 def nbS (D : Dom) : Stmt → Store D → List (Ev D.Val)
   | .set l r, σ => [Ev.write l (D.rhs σ.get r l.width)]
+  | .setDyn v vw w idx r, σ =>
+    match D.idx σ.get idx with
+    | some i => if i * w + w ≤ vw then [Ev.write (dynLhs v w i) (D.rhs σ.get r w)] else []
+    | none => [Ev.poisonVar v]
   | .ite c t e, σ =>
     match D.cond σ.get c with
     | some true => nbSs D t σ
@@ -280,6 +298,11 @@ def cond2 (σ : Nat → Option Nat) (r : Rhs) : Option Bool :=
   | some env => (selfVal env r.body).map (fun v => v != 0)
   | none => none
 
+def idx2 (σ : Nat → Option Nat) (r : Rhs) : Option Nat :=
+  match env2 σ r.leaves with
+  | some env => selfVal env r.body
+  | none => none
+
 def write2 (old : Option Nat) (l : Lhs) (new : Option Nat) : Option Nat :=
   if l.full then new else
   match old, new with
@@ -296,6 +319,7 @@ def arg2 (σ : Nat → Option Nat) (r : Rhs) : Nat × Option Nat :=
   rhs := rhs2
   cond := cond2
   arm := fun σ sel lw lv => cond2 σ (eqLabel sel lw lv)
+  idx := idx2
   write := write2
   arg := arg2
   poison := none
@@ -518,6 +542,11 @@ def rhs4 (σ : Nat → V4) (r : Rhs) (wo : Nat) : V4 := assign4 (env4 σ r.leave
 an X condition selects the else branch) -/
 def cond4 (σ : Nat → V4) (r : Rhs) : Option Bool := some (known1 (selfVal4 (env4 σ r.leaves) r.body) != 0)
 
+/-- a run-time index with an X/Z bit is undetermined -/
+def idx4 (σ : Nat → V4) (r : Rhs) : Option Nat :=
+  let x := selfVal4 (env4 σ r.leaves) r.body
+  if x.2 = 0 then some x.1 else none
+
 def write4 (old : V4) (l : Lhs) (new : V4) : V4 :=
   if l.full then new else (splice old.1 l.lo l.width new.1, splice old.2 l.lo l.width new.2)
 
@@ -529,6 +558,7 @@ def arg4 (σ : Nat → V4) (r : Rhs) : Nat × V4 :=
   rhs := rhs4
   cond := cond4
   arm := fun σ sel lw lv => cond4 σ (eqLabel sel lw lv)
+  idx := idx4
   write := write4
   arg := arg4
   poison := (0, 1)
